@@ -262,47 +262,46 @@ def _item_typed(ctx, f: FuncInfo, e: ast.AST) -> bool:
     return any(c == ITEM or ctx.prog.is_subclass(c, ITEM) for c in ctx.types.class_names(f.module, e) if c in ctx.prog.classes)
 
 
-def _protocol(ctx, f: FuncInfo) -> tuple[str, str]:
-    """Classify the voiding protocol of an apply_detection implementation."""
-    prog = ctx.prog
-    voids = [c for c in walk_no_nested(f.node) if isinstance(c, ast.Call) and isinstance(c.func, ast.Attribute) and c.func.attr == "disable_conversion_to_plain"]
-    resync = [n for n in walk_no_nested(f.node) if isinstance(n, ast.Assign) and isinstance(n.targets[0], ast.Attribute) and n.targets[0].attr == "original_value"]
-    kinds = []
-    for c in voids:
-        gs = [g for g, p in atomic_guards(guards_at(prog, f, c)) if p]
-        extra = [g for g in gs if not g.startswith("isinstance(") and "apply_detection_item" not in g and "processing_item" not in g and "match_detection_item" not in g]
-        if not extra:
-            kinds.append(("unconditional", ""))
-        elif len(extra) == 1 and " is not " in extra[0] and ".value" in extra[0]:
-            kinds.append(("identity", extra[0]))
-        else:
-            kinds.append(("conditional", "; ".join(extra)))
-    for n in resync:
-        ag = atomic_guards(guards_at(prog, f, n))
-        exact = {"any((issubclass(m, SigmaValueModifier) for m in r.modifiers))", "any(issubclass(m, SigmaValueModifier) for m in r.modifiers)"}
-        safe = any((g in exact and not p) or (g.endswith(".modifiers") and " " not in g and not p) or (g.replace(" ", "") in ("len(r.modifiers)==0",) and p) for g, p in ag)
-        typed = any("type(v) in" in g and p for g, p in ag)
-        kinds.append(("resync-guarded" if safe and typed else "resync-untyped" if safe else "resync-unguarded", unparse(n)))
+def _protocol(ctx, cq: str) -> tuple[FuncInfo, str, str]:
+    """The voiding protocol of the apply_detection a class runs, read off its interpretation on stand-in detections
+    (standins.apply_detection_outcomes): what happens to the original values of an item that apply_detection_item changed."""
+    from .standins import apply_detection_outcomes
+    m, outs = apply_detection_outcomes(ctx, cq)
+    def sel(mode, value_modifiers=False, any_mods=False, plain=True):
+        return [o for o in outs if o.mode == mode and o.value_modifiers == value_modifiers and o.any_mods == any_mods and o.plain_values == plain]
+    def changed(o):
+        return [(n, i) for n, i in o.items.items() if i.result is not None and i.stored]
+    for o in outs:
+        if o.raised is not None:
+            return m, "raises", f"{o.raised} ({o.mode}, {o.mods}, {o.values})"
+    # 1. re-sync while value modifiers stay on the item
+    for o in [o for o in outs if o.value_modifiers and o.mode in ("rebind", "inplace")]:
+        for n, i in changed(o):
+            if i.resynced or i.resync_shared:
+                return m, "resync-unguarded", f"item {n} with {o.mods}, values changed by {o.mode}"
+    # 2. re-sync of values whose plain form loads as another type
+    for o in [o for o in outs if not o.plain_values and not o.value_modifiers and o.mode in ("rebind", "inplace")]:
+        for n, i in changed(o):
+            if i.resynced or i.resync_shared:
+                return m, "resync-untyped", f"item {n} holding {o.values}"
+    # 3. a re-sync that shares the list with the item: later in-place changes go to both
+    for o in outs:
+        for n, i in changed(o):
+            if i.resync_shared:
+                return m, "resync-shared", f"item {n}: original_value is the value list itself"
+    # 4. rebinding stores
+    rebind_stale = [(o, n) for o in outs if o.mode in ("rebind", "new") for n, i in changed(o) if i.stale]
+    if rebind_stale:
+        o, n = rebind_stale[0]
+        all_stale = all(i.stale for o_ in outs if o_.mode in ("rebind", "new") for _, i in changed(o_))
+        return m, ("none" if all_stale else "conditional"), f"item {n} ({'keyword item' if n == 'C' else 'field item'}, {o.mods}, {o.values}, {o.mode}) keeps the values it was loaded with as original values"
+    inplace_stale = [(o, n) for o in outs if o.mode == "inplace" for n, i in changed(o) if i.stale]
+    kinds = {("void" if i.voided else "resync") for o in outs if o.mode in ("rebind", "new") for _, i in changed(o)}
     if not kinds:
-        if any(isinstance(c, ast.Call) and call_name(c) == "super().apply_detection" for c in walk_no_nested(f.node)) and f.cls is not None:
-            for b in prog.mro(f.cls.qual)[1:]:
-                bi = prog.classes.get(b)
-                if bi is not None and "apply_detection" in bi.methods:
-                    return _protocol(ctx, bi.methods["apply_detection"])
-        return "none", ""
-    names = {k for k, _ in kinds}
-    if "resync-unguarded" in names:
-        return "resync-unguarded", [d for k, d in kinds if k == "resync-unguarded"][0]
-    if "resync-untyped" in names:
-        return "resync-untyped", [d for k, d in kinds if k == "resync-untyped"][0]
-    if "unconditional" in names:
-        return "unconditional", ""
-    if names == {"resync-guarded", "conditional"} or names == {"resync-guarded"}:
-        # void under remaining value modifiers, re-sync otherwise
-        return "resync-guarded", ""
-    if "identity" in names:
-        return "identity", [d for k, d in kinds if k == "identity"][0]
-    return "conditional", kinds[0][1]
+        raise AnalysisError(f"{m.qual}: no stand-in item was replaced in any scenario")
+    if inplace_stale:
+        return m, "identity", "the item is voided when its value list was replaced by another object"
+    return m, ("unconditional" if kinds == {"void"} else "resync-guarded"), ""
 
 
 def r2_stale_original(ctx) -> None:
@@ -310,16 +309,27 @@ def r2_stale_original(ctx) -> None:
     r.rule("C06.R2", "stale-original discipline: every store to the value list of a detection item in pipeline code is covered by the voiding protocol of each apply_detection it runs under (unconditional void, guarded re-sync, or the identity test — which only sees rebinding stores); cloned items (dataclasses.replace / auto_modifiers=False) are voided; a re-sync of original_value is guarded by the absence of value modifiers")
     funcs = [f for f in prog.functions_in("sigma.processing", "sigma.filters", "sigma.conversion", "sigma.pipelines")]
     protos: dict[str, tuple[str, str]] = {}
+    proto_of: dict = {}
+    proto_by_class: dict[str, tuple[str, str]] = {}
     for cq in prog.subclasses(DIT):
         m = prog.lookup_method(cq, "apply_detection")
-        if m is not None and m.qual not in protos:
-            protos[m.qual] = _protocol(ctx, m)
+        if m is None:
+            continue
+        mro_key = (m.qual, tuple(q for q in prog.mro(cq) if (ci := prog.classes.get(q)) is not None and "apply_detection" in ci.methods))
+        if mro_key not in proto_of:
+            f_, kind, detail = _protocol(ctx, cq)
+            proto_of[mro_key] = (kind, detail)
+        proto_by_class[cq] = proto_of[mro_key]
+        if m.qual not in protos or proto_of[mro_key][0] not in ("unconditional", "resync-guarded", "identity"):
+            protos[m.qual] = proto_of[mro_key]
     for q, (kind, detail) in sorted(protos.items()):
         f = prog.func(q)
-        if kind in ("none", "conditional", "resync-unguarded", "resync-untyped"):
+        if kind in ("none", "conditional", "resync-unguarded", "resync-untyped", "resync-shared", "raises"):
             msg = {"resync-untyped": "original_value is re-synced whatever the types of the new values: after a regex transformation the item holds regular expressions but no re modifier, and to_dict() writes them as plain strings, which load as literal strings",
                    "none": "apply_detection neither voids nor re-syncs the replaced item: to_dict() writes the values from before the transformation",
-                   "conditional": f"the void depends on {detail}: items changed without meeting it keep stale original values",
+                   "conditional": f"the void does not reach every changed item: {detail}",
+                   "resync-shared": "original_value is bound to the value list itself instead of a copy: a later in-place change of the values silently changes what to_dict() writes",
+                   "raises": f"apply_detection fails on the stand-in detection: {detail}",
                    "resync-unguarded": "original_value is re-synced from the already modified values while value modifiers stay on the item: 'a|base64: foo' is written encoded and encoded again on load"}[kind]
             r.violation("C06.R2", q, detail or "apply_detection: no disable_conversion_to_plain()", msg, f.loc)
         else:
@@ -359,7 +369,7 @@ def r2_stale_original(ctx) -> None:
                 if m is None or m.qual in seen:
                     continue
                 seen.add(m.qual)
-                pk, pd = protos.get(m.qual) or _protocol(ctx, m)
+                pk, pd = proto_by_class[cq]
                 if pk in ("unconditional", "resync-guarded"):
                     continue
                 if pk == "identity" and kind == "rebind":
